@@ -3,6 +3,12 @@
 //   python3 /verif/tools/wpt2lines.py /repo/tests/wpt <outdir>
 //   refurl_selftest <outdir>
 //
+// Build (pick one):
+//   g++ -std=c++20 -O2 -I/verif/ref refurl_selftest.cpp refurl.cpp refidna.cpp -o refurl_selftest
+//   g++ -std=c++20 -O2 -DREFURL_SELFTEST_FORCE_ASCII_ONLY -I/verif/ref refurl_selftest.cpp refurl.cpp -o ...
+//   g++ -std=c++20 -O2 -DREFURL_SELFTEST_USE_ADA_IDNA -I/repo/include -I/verif/ref refurl_selftest.cpp refurl.cpp ada.o -o ...
+// REFURL_SELFTEST_EDGES=1 in the environment additionally dumps the state-transition coverage.
+//
 // Exit status 0 iff every vector of urltestdata.json and setters_tests.json
 // passes (vectors that cannot be decided for lack of an IDNA implementation are
 // "skipped: needs IDNA" and make the exit status 1 as well, because then not
